@@ -172,7 +172,10 @@ impl RtpsWriterProxy {
         // FIND change FROM this.changes_from_writer SUCH-THAT
         // (change.sequenceNumber == a_seq_num);
         // change.status := RECEIVED; change.is_relevant := FALSE;
-        if a_seq_num > self.highest_received_change_sn {
+        // Changes are only made available in order, so an irrelevant change can only be skipped
+        // when every change before it has been received (or is irrelevant/lost) as well.
+        // Otherwise a still missing change would silently be jumped over.
+        if a_seq_num == self.available_changes_max() + 1 {
             self.highest_received_change_sn = a_seq_num;
         }
     }
